@@ -177,7 +177,8 @@ def _initialize_alphas(cs, x, alphas, j=0):
     # j = derivative order
     if alphas is None:
         if hasattr(x, 'dtype'):
-            dtype = x.dtype
+            # the alpha sums are floating point, also for integer coordinates
+            dtype = np.result_type(x, 1.0)
         else:
             dtype = config.precision
         if hasattr(x, 'shape'):
@@ -1139,6 +1140,8 @@ def compute_z_zprime_Q2d(cm0, ams, bms, u, t):
         surface sag, radial derivative of sag, azimuthal derivative of sag
 
     """
+    # sag and slopes are floating point, also on an integer grid
+    u = np.asarray(u, dtype=np.result_type(u, 1.0))
     usq = u * u
     z = np.zeros_like(u)
     dr = np.zeros_like(u)
